@@ -646,7 +646,8 @@ def check(case, n_orders=None) -> Result:
         if res.failures:
             break
     if res.failures:
-        ok, err = fordapi.gfortran_check(case["files"], extra_stub=case.get("stub") or None)
+        # gate_extra: sources that make the program complete for the compiler but are deliberately not given to FORD
+        ok, err = fordapi.gfortran_check(dict(case["files"], **case.get("gate_extra", {})), extra_stub=case.get("stub") or None)
         if not ok:
             res.failures = []
             res.fail("HARNESS:gfortran-rejects-generated-program", err[-700:])
